@@ -71,6 +71,7 @@ func verifKeyData(n, t int, keys []*big.Int) ([]keygen.LocalPartySaveData, *cryp
 func verifC01(n, t int, signers []int, fullBytes int) {
 	v.Summarise("ideal-paillier")
 	v.Summarise("generic-coins") // all parties honest: coin coincidences are excluded and counted
+	v.Summarise("mta-no-wrap")   // MtA plaintexts a*b + beta' stay below N (decided by C13 for N > q^8)
 	ec := tss.S256()
 	q := ec.Params().N
 	allKeys := []*big.Int{big.NewInt(1), big.NewInt(2), big.NewInt(3), big.NewInt(4)}[:n]
@@ -104,7 +105,18 @@ func verifC01(n, t int, signers []int, fullBytes int) {
 	for i := range parties {
 		v.Assert("start-succeeds", parties[i].Start() == nil)
 	}
-	errs := net.Pump(parties, out, nil)
+	hook := func(msg tss.Message, to *tss.PartyID) tss.ParsedMessage {
+		pm := net.Parse(msg)
+		// coins excluded on honest messages: a Schnorr response equal to 0 (probability 1/q each)
+		switch c := pm.Content().(type) {
+		case *SignRound4Message:
+			v.Assume("schnorr-response-nonzero", len(c.GetProofT()) > 0)
+		case *SignRound6Message:
+			v.Assume("schnorr-response-nonzero", len(c.GetProofT()) > 0 && len(c.GetVProofT()) > 0 && len(c.GetVProofU()) > 0)
+		}
+		return pm
+	}
+	errs := net.Pump(parties, out, hook)
 	if len(errs) > 0 {
 		v.Note("update error: " + errs[0].Err.Cause().Error())
 	}
